@@ -28,6 +28,7 @@ func (in *inliner) normalizeCallShapes(pkgs []*packages.Package, excluded func(s
 			}
 			n := &normCtx{in: in, pkg: pk, file: f}
 			eachList(f, n.goOfNew)
+			eachList(f, n.forCondToIf)
 			eachList(f, n.switchToIf)
 			eachList(f, n.splitShortCircuit)
 			eachList(f, n.hoistFirstCall)
@@ -438,4 +439,39 @@ func (n *normCtx) switchToIf(s ast.Stmt) []ast.Stmt {
 	n.in.dirty[n.file] = true
 	n.in.res.Normalized = append(n.in.res.Normalized, fmt.Sprintf("switch without a tag at %s written as an if chain", n.in.fset.Position(pos)))
 	return []ast.Stmt{first}
+}
+
+// forCondToIf: `for COND { .. }` (no post statement) whose condition calls a
+// new function is written `for { if !(COND) { break }; .. }`: the condition is
+// evaluated at the same points (on entry and after every pass, `continue`
+// included), and the call stands in an if condition.
+func (n *normCtx) forCondToIf(s ast.Stmt) []ast.Stmt {
+	keep := []ast.Stmt{s}
+	fs, ok := s.(*ast.ForStmt)
+	if !ok || fs.Cond == nil || fs.Post != nil || fs.Init != nil {
+		return keep
+	}
+	hasNew := false
+	ast.Inspect(fs.Cond, func(m ast.Node) bool {
+		switch x := m.(type) {
+		case *ast.FuncLit:
+			return false
+		case *ast.CallExpr:
+			if n.isNewCallee(x) {
+				hasNew = true
+			}
+		}
+		return !hasNew
+	})
+	if !hasNew {
+		return keep
+	}
+	pos := fs.Cond.Pos()
+	test := &ast.IfStmt{If: pos, Cond: &ast.UnaryExpr{OpPos: pos, Op: token.NOT, X: &ast.ParenExpr{Lparen: pos, X: fs.Cond, Rparen: fs.Cond.End()}},
+		Body: &ast.BlockStmt{Lbrace: pos, List: []ast.Stmt{&ast.BranchStmt{TokPos: pos, Tok: token.BREAK}}, Rbrace: pos}}
+	fs.Cond = nil
+	fs.Body.List = append([]ast.Stmt{test}, fs.Body.List...)
+	n.in.dirty[n.file] = true
+	n.in.res.Normalized = append(n.in.res.Normalized, fmt.Sprintf("loop condition at %s written as a test at the top of the body", n.in.fset.Position(pos)))
+	return keep
 }
